@@ -162,6 +162,9 @@ cmd_move(const json_t *arg, json_t *stk, json_t *cur, json_t *lst)
 {
     json_int_t i = json_integer_value(arg);
 
+    if (i < 0 || (size_t) i >= json_array_size(stk))
+        return false;
+
     if (json_array_insert(stk, i + 1, cur) < 0)
         return false;
 
@@ -516,9 +519,9 @@ opt_set_int(const jcmd_cfg_t *cfg, void *vopt, const char *arg)
 {
     json_t **x = vopt;
     json_int_t j = 0;
-    int i = 0;
+    long long i = 0;
 
-    if (sscanf(arg, "%d", &i) != 1)
+    if (sscanf(arg, "%lld", &i) != 1)
         return false;
 
     j = i;
@@ -529,14 +532,16 @@ opt_set_int(const jcmd_cfg_t *cfg, void *vopt, const char *arg)
 static bool
 opt_set_uint(const jcmd_cfg_t *cfg, void *vopt, const char *arg)
 {
-    unsigned int i = 0;
+    unsigned long long i = 0;
     json_t **x = vopt;
     json_int_t j = 0;
 
-    if (sscanf(arg, "%u", &i) != 1)
+    if (sscanf(arg, "%llu", &i) != 1)
         return false;
 
-    j = i;
+    /* No narrowing: a count that does not fit (a minus sign wraps to one)
+     * stays larger than any stack or array. */
+    j = i > INT64_MAX ? INT64_MAX : (json_int_t) i;
     if (!*x) *x = json_array();
     return json_array_append_new(*x, json_pack("[i,I]", cfg->opt.val, j)) >= 0;
 }
